@@ -15,4 +15,4 @@ fn internal_error<S: Display + Debug + Sync + Send + 'static>(reason: S) -> Erro
 pub use freezer::Freezer;
 pub use freezer_files::FreezerFilesBuilder;
 #[cfg(feature = "verif-hooks")]
-pub use freezer_files::{FreezerFiles, VERIF_MAX_FILE_SIZE};
+pub use freezer_files::{FreezerFiles, VERIF_MAX_FILE_SIZE, VERIF_POINT};
